@@ -319,7 +319,10 @@ pub fn worker(args: &[String]) -> i32 {
             std::thread::sleep(std::time::Duration::from_millis(500));
             let used = cpu_ticks().saturating_sub(cs.load(std::sync::atomic::Ordering::Relaxed));
             if used > 60 * 100 {
-                println!("X {}", cc.load(std::sync::atomic::Ordering::Relaxed));
+                // (the pipe may be closed already: a failed write must not keep this thread from ending the process)
+                let mut o = std::io::stdout();
+                let _ = writeln!(o, "X {}", cc.load(std::sync::atomic::Ordering::Relaxed));
+                let _ = o.flush();
                 std::process::exit(97);
             }
         });
